@@ -124,7 +124,12 @@ def run_single(exe, path, slack, prefix, want_hang_site=True, recover=False):
     res = {"keys": keys, "rc": r.rc, "timed_out": r.timed_out, "line": eline, "hang": None}
     if r.timed_out:
         r2 = core.run([exe] + args, timeout=SINGLE_TIMEOUT, env=env)
-        if r2.timed_out:
+        # the decoder is single-threaded here: a real hang burns CPU. A watchdog that fires on a process that got little
+        # CPU (oversubscribed machine) says nothing about the decoder: inconclusive, never a verdict.
+        starved = r2.timed_out and getattr(r2, "cpu_s", None) is not None and r2.cpu_s < 0.25 * SINGLE_TIMEOUT
+        if starved:
+            res["timed_out"] = "starved"
+        elif r2.timed_out:
             site = _hang_site(exe, args, env) if want_hang_site else "?"
             res["hang"] = site
             res["keys"] = keys + [("%s|hang|%s" % (PID, site), "svt_av1_dec_frame session did not return within %.0f s, twice"
@@ -294,7 +299,7 @@ def _judge_dirty(exe, inp, slack, ident, desc, tag, prefix, budget=None, stalled
                 os.unlink(os.path.join(os.path.dirname(prefix), f))
             except OSError:
                 pass
-    return {"case": case, "keys": res["keys"], "once": res["timed_out"] == "once", "tag": tag, "mode": mode, "ident": ident,
+    return {"case": case, "keys": res["keys"], "once": res["timed_out"] in ("once", "starved"), "tag": tag, "mode": mode, "ident": ident,
             "desc": desc, "size": len(inp)}
 
 
